@@ -36,6 +36,7 @@ class _Prim(Kind):
 Int = _Prim('Int', z3.IntSort)
 Bool = _Prim('Bool', z3.BoolSort)
 Str = _Prim('Str', z3.StringSort)
+Cls = _Prim('Cls', z3.StringSort)      # a class object, by its dotted name (e.g. 'pathlib.Path', 'taskchain.task:Task')
 
 
 class PathKind(Kind):
@@ -204,14 +205,13 @@ DynD = DynDictKind()
 
 def dyn_sorts():
     if 'dyn' not in _cache:
-        F = U('Float').sort()
         J = z3.Datatype('J')
         JL = z3.Datatype('JL')
         JD = z3.Datatype('JD')
         J.declare('JNone')
         J.declare('JBool', ('jbool', z3.BoolSort()))
         J.declare('JInt', ('jint', z3.IntSort()))
-        J.declare('JFloat', ('jfloat', F))
+        J.declare('JFloat', ('jfloat', z3.IntSort()))         # floats are opaque: an id into an abstract table
         J.declare('JStr', ('jstr', z3.StringSort()))
         J.declare('JRStr', ('jrs_value', z3.StringSort()), ('jrs_orig', z3.StringSort()))
         J.declare('JPath', ('jpath', z3.StringSort()))
@@ -287,7 +287,7 @@ def decode_value(model, kind, v, depth=0):
             return str(v)
     if kind.name == 'Bool':
         return z3.is_true(v)
-    if kind.name in ('Str', 'Path'):
+    if kind.name in ('Str', 'Path', 'Cls'):
         try:
             s = v.as_string()
             return _unescape(s)
